@@ -408,6 +408,11 @@ class INSMonitor:
         ctx.nb.note("criterion", it=it, crit=crit)
 
 
+# documented aliases of the importance sampler's stopping criteria
+ALIASES = {"ratio": "ratio", "ratio_all": "ratio", "ratio_ns": "ratio_ns", "Z_err": "Z_err", "evidence_error": "Z_err",
+           "log_dZ": "log_dZ", "log_evidence": "log_dZ", "ess": "ess", "fractional_error": "fractional_error"}
+
+
 def harrell_davis(values, qs):
     values = np.asarray(values, dtype=float)
     n = len(values)
@@ -483,23 +488,34 @@ def stop_oracle_ins(ctx, fs, scn):
     if mon is None:
         return
     recs = mon.criteria
-    tol = list(ns.tolerance)
-    stop_any = bool(ns._stop_any)
-    min_it = ns.min_iteration
-    max_it = ns.max_iteration
+    # the rule as the USER configured it (documented aliases), not as the sampler stored it
+    kw = scn.get("kwargs", {})
+    user_c = kw.get("stopping_criterion", "ratio")
+    user_t = kw.get("tolerance", 0.0)
+    user_c = [user_c] if isinstance(user_c, str) else list(user_c)
+    user_t = [float(t) for t in user_t] if isinstance(user_t, (list, tuple)) else [float(user_t)]
+    canon = [ALIASES[c] for c in user_c]
+    tol = user_t
+    stop_any = kw.get("check_criteria", "any") == "any"
+    min_it = kw.get("min_iteration", None)
+    min_it = -1 if min_it is None else int(min_it)
+    max_it = kw.get("max_iteration", None)
+    max_it = np.inf if max_it is None else int(max_it)
 
-    def reached(c):
-        flags = [ci <= ti for ci, ti in zip(c, tol)]
+    def reached(values):
+        flags = [values[cn] <= ti for cn, ti in zip(canon, tol)]
         return any(flags) if stop_any else all(flags)
 
     for i, r in enumerate(recs):
         k = r["it"]  # iteration index before increment
-        stop_now = (reached(r["crit"]) and (k + 1) >= min_it) or (k + 1) >= max_it
+        stop_now = (reached(r["all"]) and (k + 1) >= min_it) or (k + 1) >= max_it
         last = i == len(recs) - 1
         if stop_now and not last:
-            ctx.violation("C15-stop-late", {"iteration": k, "criterion": r["crit"], "tolerance": tol})
+            ctx.violation("C15-stop-late", {"iteration": k, "criteria": canon,
+                                            "values": [r["all"][c] for c in canon], "tolerance": tol})
         if last and not stop_now:
-            ctx.violation("C15-stop-early", {"iteration": k, "criterion": r["crit"], "tolerance": tol,
+            ctx.violation("C15-stop-early", {"iteration": k, "criteria": canon,
+                                             "values": [r["all"][c] for c in canon], "tolerance": tol,
                                              "min_iteration": int(min_it),
                                              "max_iteration": None if np.isinf(max_it) else int(max_it)})
     h = ns.history["stopping_criteria"]
